@@ -295,6 +295,15 @@ func (an *analyzer) learnLB(st *tstate, pair string, k int) {
 	st.f[pair] = f
 }
 
+// refineEither: the state after one of two alternatives — what both refinements establish
+func (an *analyzer) refineEither(st *tstate, a, b func(*tstate)) {
+	s1, s2 := st.clone(), st.clone()
+	a(s1)
+	b(s2)
+	j := tiJoin(s1, s2)
+	st.f, st.a, st.top = j.f, j.a, j.top
+}
+
 // refine state by condition cond being `val`
 func (an *analyzer) refine(st *tstate, cond ast.Expr, val bool) {
 	cond = ast.Unparen(cond)
@@ -309,11 +318,23 @@ func (an *analyzer) refine(st *tstate, cond ast.Expr, val bool) {
 			if val {
 				an.refine(st, x.X, true)
 				an.refine(st, x.Y, true)
+			} else {
+				// !(A && B): A is false, or A is true and B is false — what both cases establish
+				an.refineEither(st, func(s *tstate) { an.refine(s, x.X, false) }, func(s *tstate) {
+					an.refine(s, x.X, true)
+					an.refine(s, x.Y, false)
+				})
 			}
 		case token.LOR:
 			if !val {
 				an.refine(st, x.X, false)
 				an.refine(st, x.Y, false)
+			} else {
+				// A || B: A is true, or A is false and B is true
+				an.refineEither(st, func(s *tstate) { an.refine(s, x.X, true) }, func(s *tstate) {
+					an.refine(s, x.X, false)
+					an.refine(s, x.Y, true)
+				})
 			}
 		case token.LSS, token.GEQ, token.GTR, token.LEQ:
 			// normalize to A < len(S)
